@@ -85,12 +85,16 @@ func translateStructD(rel, pkg, name string, b *strings.Builder) {
 		if fty == tCell {
 			fty = tAny
 		}
-		if !isUnsigned(fty) && fty != tBool && fty != tAny && fty != tBytes && fty != tLU32 && fty != tString && !isStructList(fty) && !isStruct(fty) {
+		if !isUnsigned(fty) && fty != tBool && fty != tAny && fty != tBytes && fty != tLU32 && fty != tString && !isStructList(fty) && !isStruct(fty) && fty != tLIface {
 			problem("translate: struct %s: field type %s", name, exprString(fl.Type))
 			fmt.Fprintf(b, "  extract_problem_field : extract_problem_untranslated\n")
 			continue
 		}
-		for _, nm := range fl.Names {
+		names := fl.Names
+		if id, ok := fl.Type.(*ast.Ident); ok && len(names) == 0 {
+			names = []*ast.Ident{id} // translate5.go: an embedded struct is a field named after its type
+		}
+		for _, nm := range names {
 			fields = append(fields, fieldInfo{nm.Name, fty})
 			fmt.Fprintf(b, "  %s : %s := %s\n", leanIdent(nm.Name), leanTy(fty), defaultOf(fty))
 		}
@@ -116,6 +120,7 @@ func scanErrorWrappers(f *ast.File) {
 			errorWrappers[strings.TrimPrefix(exprString(fd.Recv.List[0].Type), "*")] = true
 		}
 	}
+	scanWrapperFields5(f) // translate5.go
 }
 
 // errClassOf: how the class of an error expression depends on the variable errName:
@@ -142,6 +147,10 @@ func errClassOf(e ast.Expr, errName string) string {
 				el = kv.Value
 			}
 			return errClassOf(el, errName)
+		} else if ok && x.Op == token.AND {
+			if el, ok := wrappedErr5(cl); ok { // translate5.go: a wrapper with more fields than the error
+				return errClassOf(el, errName)
+			}
 		}
 	case *ast.CallExpr:
 		switch exprString(x.Fun) {
@@ -211,6 +220,9 @@ func (t *tr) stTuple(extra []string) string {
 
 // return of a state-passing function
 func (t *tr) retSt(x *ast.ReturnStmt) []string {
+	if t.errVal5 {
+		return t.retStv5(x) // translate5.go
+	}
 	n := len(t.retTys) // the last one is error
 	if len(x.Results) == 1 && n >= 1 {
 		// return f(payload, …): a translated function over the same state with the same results
@@ -221,6 +233,9 @@ func (t *tr) retSt(x *ast.ReturnStmt) []string {
 					return append(out, code)
 				}
 				return []string{t.fail(x, "tail call with different results")}
+			}
+			if lines, ok := t.tailDecoder5(ce); ok { // translate5.go: return utils.BinaryDecoder(payload, …)
+				return lines
 			}
 		}
 	}
@@ -268,7 +283,7 @@ func (t *tr) stCall(ce *ast.CallExpr) (string, fnSig, bool) {
 			}
 		}
 		if isState {
-			ai, ok := a.(*ast.Ident)
+			ai, ok := t.stArg5(a, sig.params[i]) // translate5.go: a variable, or &x for a struct behind a pointer
 			if !ok {
 				t.fail(a, "state argument that is not a variable")
 				return "", fnSig{}, false
@@ -401,7 +416,7 @@ func (t *tr) effectCallSt(ce *ast.CallExpr, cls string) ([]string, bool) {
 		for i, a := range ce.Args {
 			for _, si := range sig.refs {
 				if si == i {
-					ai := a.(*ast.Ident)
+					ai, _ := t.stArg5(a, sig.params[i])
 					ty, _ := t.lookup(ai.Name)
 					out = append(out, "let "+leanIdent(ai.Name)+" : "+leanTy(ty)+" := "+r+proj(k, total))
 					k++
